@@ -22,9 +22,9 @@ import (
 )
 
 type C01ClusterCase struct {
-	W3       W3Case   `json:"w3"`       // first phase: cluster shape + writes
-	More     [][]W3Op `json:"more"`     // further phases of writes
-	Searches [][]W3Op `json:"searches"` // searches after each phase
+	W3       W3Case   `json:"w3"`              // first phase: cluster shape + writes
+	More     [][]W3Op `json:"more"`            // further phases of writes
+	Searches [][]W3Op `json:"searches"`        // searches after each phase
 	CutP     float64  `json:"cut_p,omitempty"` // probability that a leg's answer stream breaks off after some of its items, while the searches run (a search may then fail; one that succeeds is judged as ever)
 }
 
